@@ -78,12 +78,22 @@ func judgeC06(c *core.Case, cfg *core.Config) core.Verdict {
 	if mode == "typed" {
 		opts = append(opts, expr.Env(core.Env{}))
 	}
+	// the budget configured while the program is COMPILED is irrelevant: the one in force at the run counts
+	saved := vm.MemoryBudget
+	switch c.Str("cbudget") {
+	case "tiny":
+		vm.MemoryBudget = 2
+	case "raised":
+		vm.MemoryBudget = 3000000
+	case "same":
+		vm.MemoryBudget = int(budget)
+	}
 	p, err := compile(c.Source, opts...)
+	vm.MemoryBudget = saved
 	if err != nil {
 		v.Violation = "Compile rejects an expression of allocating constructs: " + firstLine(err.Error())
 		return v
 	}
-	saved := vm.MemoryBudget
 	vm.MemoryBudget = int(budget)
 	var ilog, ilog2 []string
 	out, rerr := run(p, spec.Build(&ilog))
@@ -354,6 +364,68 @@ func genC06(t *rapid.T, cfg *core.Config) *core.Case {
 	c.P["bval"] = rapid.IntRange(1, 10000).Draw(t, "bval")
 	c.P["opt"] = rapid.Bool().Draw(t, "opt")
 	c.P["mode"] = rapid.SampledFrom([]string{"typed", "typed", "untyped"}).Draw(t, "mode")
+	c.P["cbudget"] = rapid.SampledFrom([]string{"default", "default", "same", "tiny", "raised"}).Draw(t, "cbudget")
+	return c
+}
+
+// "literal" cases: a range with LITERAL bounds around the optimiser's preallocation limit, compiled under
+// one budget and run under another. Whatever the optimiser does with such a range, the outcome of the run may
+// depend on the budget in force when it RUNS only: the same source compiled under the default budget is the
+// reference. Without the optimiser the exact oracle (completes iff elements < budget) applies as well.
+func init() { core.RegisterJudge("C06", "literal", judgeC06Literal) }
+
+func judgeC06Literal(c *core.Case, cfg *core.Config) core.Verdict {
+	v := core.Verdict{Key: fmt.Sprintf("%s|%v|%v|%v", c.Source, c.P["cb"], c.P["rb"], c.P["opt"])}
+	n, cb, rb, opt := int64(c.Int("n")), c.Int("cb"), c.Int("rb"), c.Bool("opt")
+	saved := vm.MemoryBudget
+	defer func() { vm.MemoryBudget = saved }()
+	comp := func(b int) (*vm.Program, error) {
+		vm.MemoryBudget = b
+		defer func() { vm.MemoryBudget = saved }()
+		return compile(c.Source, expr.Optimize(opt), expr.Env(core.Env{}))
+	}
+	p1, err1 := comp(cb)
+	p0, err0 := comp(saved)
+	if err1 != nil || err0 != nil {
+		v.Violation = fmt.Sprintf("Compile rejects a literal range: %v / %v", err1, err0)
+		return v
+	}
+	spec := c.Env
+	vm.MemoryBudget = rb
+	out1, rerr1 := run(p1, spec.Build(nil))
+	out0, rerr0 := run(p0, spec.Build(nil))
+	vm.MemoryBudget = saved
+	v.Classes = append(v.Classes, fmt.Sprintf("opt:%v", opt), fmt.Sprintf("cb:%d", cb), fmt.Sprintf("rb:%d", rb))
+	v.NonTriv = cb != saved
+	if (rerr1 == nil) != (rerr0 == nil) || rerr1 == nil && !core.Equiv(out1, out0) {
+		v.Violation = fmt.Sprintf("run budget %d: compiled while the budget was %d the run gives %s, compiled under the default budget it gives %s", rb, cb, runOut{out1, rerr1, nil}, runOut{out0, rerr0, nil})
+		return v
+	}
+	if !opt {
+		want := int64(c.Int("total")) < int64(rb)
+		if want != (rerr1 == nil) {
+			v.Violation = fmt.Sprintf("without the optimiser the evaluation creates %d elements (a range of %d) under budget %d, but the run gives %s", c.Int("total"), n, rb, runOut{out1, rerr1, nil})
+		}
+	}
+	return v
+}
+
+func genC06Literal(t *rapid.T) *core.Case {
+	c := pcase("C06", "literal")
+	lo := rapid.SampledFrom([]int{0, 1, -5}).Draw(t, "lo")
+	n := rapid.SampledFrom([]int{0, 1, 50, 99, 100, 101, 999999, 1000000, 1000001, 1500000}).Draw(t, "n")
+	c.P["n"] = n
+	rng := fmt.Sprintf("%d..%d", lo, lo+n-1)
+	if lo < 0 {
+		rng = fmt.Sprintf("(%d)..%d", lo, lo+n-1)
+	}
+	shape := rapid.IntRange(0, 4).Draw(t, "shape")
+	c.Source = fmt.Sprintf([]string{"len(%s)", "len(%s) + I", "len(map(%s, {I}))", "count(%s, {# > I})", "len([%s, 1])"}[shape], rng)
+	c.P["total"] = []int{n, n, 2 * n, n, n + 2}[shape] // elements created: the range, plus the map result / the array
+	c.P["cb"] = rapid.SampledFrom([]int{1, 100, 1000000, 3000000}).Draw(t, "cb")
+	c.P["rb"] = rapid.SampledFrom([]int{1, 100, 101, 1000000, 1000001, 3000000}).Draw(t, "rb")
+	c.P["opt"] = rapid.Bool().Draw(t, "opt")
+	c.Env = core.GenEnvSpec(t, "nil", 2)
 	return c
 }
 
@@ -366,5 +438,8 @@ func TestC06(t *testing.T) {
 	rec.Extra["rule"] = "rapid-generated expressions made only of allocating constructs (array and map literals, ranges with run-time bounds that are ascending/empty/descending/huge, map and filter results, per-element nested allocations, arrays and maps of those) glued by total operations (len, +, -, count, comparisons); the reference evaluator's ledger gives the total A, the budget is drawn from {1, A-1, A, A+1, 2A+2, random <= 1e4, default 1e6}; optimiser on/off (the generator keeps a run-time operand in every range and non-empty literal so no rewrite changes allocation), typed/untyped. Oracle: completes iff A < budget, refusals are budget errors, a completed result equals the reference. Non-trivial: >= 2 allocation sites and (|A-budget| <= 1 or a descending range was evaluated); distinct by source+environment+budget+options."
 	rec.Extra["assumptions"] = []string{"allocation ledger of harness/core/refeval.go: elements of array literals, map literals, ranges (max(0,hi-lo+1)), filter and map results, in evaluation order", "vm.MemoryBudget is a package variable: this check is single-goroutine and restores it after every run"}
 	rec.Extra["floor"] = 0.1
-	core.RunRapid(t, rec, "random", cfg.N(30000, 600000), func(rt *rapid.T) *core.Case { return genC06(rt, cfg) })
+	if !core.RunRapid(t, rec, "random", cfg.N(30000, 600000), func(rt *rapid.T) *core.Case { return genC06(rt, cfg) }) {
+		return
+	}
+	core.RunRapid(t, rec, "literal", cfg.N(150, 1500), genC06Literal)
 }
